@@ -6,6 +6,7 @@ import Thanos.Lemmas.DedupOnce
 import Thanos.Lemmas.KMerge
 import Thanos.Lemmas.SortSpec
 import Thanos.Lemmas.LoserTreeFrames
+import Thanos.Lemmas.Ring
 import Thanos.Generated.Facts
 /-
   C03 — StoreAPI fan-out merge returns each series once, sorted, with all chunks.
@@ -482,6 +483,19 @@ theorem C03_exact_tree (rq : Request) (stores : List Store) (hab : rq.abort = fa
         (∃ s, Delivered rq stores s ∧ o.lbls = s.lbls) ∧
         (∀ c ∈ o.chunks, ∃ s, Delivered rq stores s ∧ cmpLabels o.lbls s.lbls = .eq ∧ c ∈ s.chunks)) :=
   C03_exact treeMerge (mergeMem_of_spec losertree_refines) rq stores hab hlim hd hfix hkeys
+
+/-! ### the lazy buffer -/
+
+/-- **Any lazy buffer size.**  The ring buffer between a lazy receiver and the merge
+    (`lazyRetrievalMaxBufferedResponses` slots) is a FIFO queue of that capacity under every
+    interleaving of producer and consumer steps (a producer step on a full buffer / a consumer step
+    on an empty one is not enabled: the goroutine waits on the condition variable).  Hence a lazy
+    response set hands the merge the store's responses in arrival order whatever the buffer size —
+    the reason the buffer size does not occur in `respSet`. -/
+theorem C03_ring_fifo {α : Type} (maxBuffered : Nat) (ops : List (Ring.Op α)) :
+    (Ring.run (Ring.Ring.new maxBuffered) ops).1 = (Ring.runQueue maxBuffered [] ops).1 := by
+  have := (Ring.run_refines (maxBuffered + 1) ops (Ring.Ring.new maxBuffered) [] (Ring.rep_new maxBuffered)).1
+  simpa using this
 
 /-! ### regenerated facts -/
 
